@@ -1,5 +1,6 @@
 """E-MIR fork mode: a MIR interpreter with a concrete heap and symbolic scalars (z3), fork-by-re-execution.
 DESIGN.md 3.3.  Panics are first-class outcomes (class Panic)."""
+import os
 import re, sys, itertools
 import z3
 from .mir import parse_mir, load_source_facts, split_top, strip_generics, unescape, unescape_bytes
@@ -7,6 +8,8 @@ from .mir import parse_mir, load_source_facts, split_top, strip_generics, unesca
 sys.setrecursionlimit(100000)
 
 # =============================================================== values
+_FORCE_UNSUPPORTED = os.environ.get('HV_FORCE_UNSUPPORTED', '')
+
 class Cell:
     __slots__ = ('v',)
     def __init__(self, v=None): self.v = v
@@ -892,6 +895,7 @@ class Interp:
     # ---------------------------------------------------------------- calls
     def call(self, fname, args):
         f = strip_generics(fname)
+        if _FORCE_UNSUPPORTED and _FORCE_UNSUPPORTED in fname: raise Unsupported('call ' + fname + ' (forced by HV_FORCE_UNSUPPORTED: self-test of the unexplored / fallback path)')
         g = lambda x: x.get() if isinstance(x, Ptr) else x
         def gg(x):
             while isinstance(x, Ptr): x = x.get()
